@@ -677,6 +677,17 @@ def v2Remaining (b : BidV2) : Nat × Nat × Nat :=
     (acc.1 - ev.base, acc.2.1 - ev.quote, acc.2.2 - ev.fee))
     (b.base.amount, b.quote.amount, (b.fee.map (·.amount)).getD 0)
 
+/-- what an entry under the `bid` prefix is owed, old-format bids included (by the fold over
+    their event log): the escrow a migration has to carry over -/
+def bidOwesAny (d : String) : BidEntry → Nat
+  | .v3 b => bidOwes d (.v3 b)
+  | .v2 b =>
+    (if b.quote.denom = d then (v2Remaining b).2.1 else 0) +
+    (match b.fee with | some f => if f.denom = d then (v2Remaining b).2.2 else 0 | none => 0)
+
+def owedAny (s : State) (d : String) : Nat :=
+  Book.sumBy (askOwes d) s.asks + Book.sumBy (bidOwesAny d) s.bids
+
 def C15_entryOK (windowed : Bool) (e e' : BidEntry) : Bool :=
   match e with
   | .v3 _ => e' == e
